@@ -209,6 +209,25 @@ def check_absolute(ctx: Ctx, rnd, tier):
                 ctx.cov.setdefault("batched_raise_samples", [])
                 if len(ctx.cov["batched_raise_samples"]) < 3:
                     ctx.cov["batched_raise_samples"].append(f"{type(e).__name__}: {str(e)[:100]}")
+        # the same process stated with the origin given as the length of the root edge (origin_is_root_edge): the epoch boundaries
+        # are absolute times either way, so the density is the same number
+        try:
+            import torch
+            from torchtree.evolution.bdsk import PiecewiseConstantBirthDeath
+            hts = torch.tensor([origin - t for t in tips] + sorted(origin - b for b in births))     # the root is the last node, as in a tree model
+            edge = origin - float(hts.max())
+            d_edge = PiecewiseConstantBirthDeath(torch.tensor(lam), torch.tensor(mu), torch.tensor(psi), rho=torch.tensor(rho), origin=torch.tensor([edge]),
+                                                 origin_is_root_edge=True, times=torch.tensor(T[:-1]), survival=survival)
+            got_edge = float(d_edge.log_prob(hts))
+            ctx.add("root_edge_restatements")
+            if not close(got_edge, got, 1e-9):
+                ctx.violation(f"C09:density:origin-as-root-edge:{'single-epoch' if m == 1 else 'multi-epoch'}",
+                              f"origin {origin} stated as root edge {edge} (origin_is_root_edge) with explicit epoch times {T[:-1]}: log density {got_edge!r}, "
+                              f"with the absolute origin {got!r}; births {births} tips {tips}", {"births": births, "tips": tips, "T": T, "edge": edge})
+        except Exception as e:
+            ctx.violation(f"C09:density:origin-as-root-edge:raises:{'single-epoch' if m == 1 else 'multi-epoch'}",
+                          f"origin stated as root edge with explicit epoch times {T[:-1]} raised {type(e).__name__}: {str(e)[:120]}; births {births} tips {tips}",
+                          {"births": births, "tips": tips, "T": T})
         want = ode_reference(births, tips, T, origin, lam, mu, psi, rho, survival)
         if not close(got, want, 1e-6):
             kind = ("single-epoch" if m == 1 else "multi-epoch") + (":serial" if any(t < origin for t in tips) else ":contemporaneous") + \
